@@ -221,6 +221,18 @@ CHECKS = {
               "reported and the exact response; end-of-record input energy non-negative (one open known finding)."),
         design_ref="DESIGN.md section 4, C03",
         note=LEVEL_NOTE_N + "; object API with ascending period lists"),
+    "C15": dict(
+        engine="Stockwell",
+        technique="TLA+ definitional S-transform cell (O(N) sum over the definitional DFT) over the FP carrier; TLC exhaustive over all short records with both implementations and the inverse in lock-step cell by cell; TLC trace validation (one event per frequency row, sampled cells of large transforms, dominant-frequency traces)",
+        category="model_checking",
+        text=("MC_Stockwell: every record over {-1,0,2} of length 4..6 (quick) / 4..8 (thorough; odd lengths truncated): Marginal and Linear "
+              "hold of the definition; transform and transform_w_scipy_fft have shape (N/2, N), equal the definition in every cell and each "
+              "other, itransform recovers the record minus mean and Nyquist component. Trace_Stockwell: random records of every length "
+              "4..32 / 4..48 and 63..128 in full (row by row, incl. the row-sum marginal), sampled cells + all marginals for n up to 257 / "
+              "1024, inverse, linearity on sampled cells, get_max_stockwell_freq / get_max_tifq_vals_freq on on-grid sinusoids (two phases) "
+              "for many (n, dt) pairs over the middle half."),
+        design_ref="DESIGN.md section 4, C15",
+        note=LEVEL_NOTE_N),
 }
 
 NOT_YET = {}
